@@ -33,8 +33,9 @@ const (
 	defaultFactor int = 2
 	defaultCap    int = 180000 // 3 minutes
 
-	// maxDelayMs is the longest delay, in ms, that fits a time.Duration
-	maxDelayMs int = math.MaxInt64 / int(time.Millisecond)
+	// maxDelayMs is the longest delay, in ms, that fits a time.Duration (an untyped constant:
+	// it does not fit an int on 32-bit platforms)
+	maxDelayMs = math.MaxInt64 / int64(time.Millisecond)
 )
 
 // backoff provides increasing duration with the number of attempt
@@ -71,9 +72,9 @@ func (b *backoff) durationForAttempt(attempt int) time.Duration {
 	if expBackoff > float64(maxDelayMs) {
 		expBackoff = float64(maxDelayMs)
 	}
-	d := int(math.Trunc(expBackoff))
+	d := int64(math.Trunc(expBackoff))
 	if !b.NoJitter && d > 0 {
-		d = rand.Intn(d)
+		d = rand.Int63n(d)
 	}
 	return time.Duration(d) * time.Millisecond
 }
